@@ -384,6 +384,13 @@ static void sim_errfunc(cfg_t *cfg, const char *fmt, va_list ap)
 		E->cur->diags.push_back(d);
 }
 
+// print filter party: hides about half of the options, chosen by name
+static int sim_printfilter(cfg_t *cfg, cfg_opt_t *opt)
+{
+	(void)cfg;
+	return (int)(fnv64(opt->name) & 1);
+}
+
 static void sim_printcb(cfg_opt_t *opt, unsigned int index, FILE *fp)
 {
 	fprintf(fp, "<pf:%s:%u>", opt->name, index);
@@ -1010,6 +1017,9 @@ static void run_op(int client, const json &op, OpResult &r)
 	} else if (kind == "setvalidate2") {
 		bool on = op.value("on", true);
 		LIBCALL(op, cfg_set_validate_func2(cfg, name.c_str(), on ? sim_validcb2 : nullptr));
+	} else if (kind == "setprintfilter") {
+		bool on = op.value("on", true);
+		LIBCALL(op, cfg_set_print_filter_func(cfg, on ? sim_printfilter : nullptr));
 	} else if (kind == "setprintfunc") {
 		bool on = op.value("on", true);
 		LIBCALL(op, cfg_set_print_func(cfg, name.c_str(), on ? sim_printcb : nullptr));
